@@ -175,11 +175,81 @@ def check_decode_full(rep, f, n):
                 empt.append((bi, t))
         elif re.search(r"as Packet>::decode>.*(as Continue\.0\.1|as Ok\.0\.1)$", o):
             empt.append((bi, t))
+    true_edges, false_edges = [], []
+    # the same test written on the length: slice patterns (`[]` / `[_, ..]`), `len() == 0`, `len() > 0`, ...
+    remainder = (lambda o: ("param_1" in o or "ref(" in o)) if via_mut else \
+        (lambda o: bool(re.search(r"as Packet>::decode>.*(as Continue\.0\.1|as Ok\.0\.1)", o)))
+    defs = {}
+    for blk in f.b.blocks.values():
+        for lhs, rhs, raw in blk.stmts:
+            if lhs:
+                defs.setdefault(lhs, []).append(rhs)
+        t_ = blk.term
+        if t_ and t_.kind == "call" and t_.dest:
+            defs.setdefault(t_.dest, []).append(("call", t_))
+
+    def chase(x, depth=0):
+        """the single definition of a local, through moves/copies"""
+        x = re.sub(r"^(move|copy|no_retag copy) ", "", x.strip())
+        d = defs.get(x)
+        if depth > 8 or not d or len(d) != 1 or not isinstance(d[0], str):
+            return x, d
+        r = d[0].strip()
+        if re.fullmatch(r"(move |copy |no_retag copy )?_\d+", r):
+            return chase(r, depth + 1)
+        return x, d
+
+    def is_len_of_remainder(x):
+        x, d = chase(x)
+        if not d or len(d) != 1:
+            return False
+        r = d[0]
+        if isinstance(r, tuple):
+            t_ = r[1]
+            return bool(re.search(r"(^|::)len$", t_.callee)) and remainder(f.res(t_.args[0]))
+        m = re.match(r"(PtrMetadata|Len)\((?:move |copy )?(.+)\)$", r.strip())
+        if not m:
+            return False
+        inner = m.group(2)
+        y, dy = chase(inner)
+        src = dy[0] if dy and len(dy) == 1 and isinstance(dy[0], str) else inner
+        m2 = re.search(r"\(\*(_\d+)\)", src) or re.search(r"(_\d+)", src)
+        return bool(m2) and remainder(f.res(m2.group(1)))
+
+    def const_of(x):
+        x, d = chase(x)
+        m = re.match(r"const (\d+)_usize", (d[0] if d and len(d) == 1 and isinstance(d[0], str) else x).strip())
+        return int(m.group(1)) if m else None
+    n_len_tests = 0
+    for blk in f.b.blocks.values():
+        sw = blk.term
+        if not sw or sw.kind != "switch":
+            continue
+        dname, dd = chase(sw.discr)
+        if not dd or len(dd) != 1 or not isinstance(dd[0], str):
+            continue
+        m = re.match(r"(Eq|Ne|Gt|Ge|Lt|Le)\((.+), (.+)\)$", dd[0].strip())
+        if not m:
+            continue
+        op, a_, b_ = m.group(1), m.group(2), m.group(3)
+        if is_len_of_remainder(b_) and const_of(a_) is not None:
+            a_, b_ = b_, a_
+            op = {"Gt": "Lt", "Lt": "Gt", "Ge": "Le", "Le": "Ge"}.get(op, op)
+        if not is_len_of_remainder(a_):
+            continue
+        k_ = const_of(b_)
+        empty_when_true = {("Eq", 0): True, ("Ne", 0): False, ("Gt", 0): False, ("Ge", 1): False, ("Lt", 1): True,
+                           ("Le", 0): True}.get((op, k_))
+        if empty_when_true is None:
+            continue
+        n_len_tests += 1
+        for lab, tgt in sw.targets:
+            is_true = (lab != "0")
+            (true_edges if is_true == empty_when_true else false_edges).append(tgt)
     n["rules"] += 1
-    if not empt:
+    if not empt and not n_len_tests:
         rep.add("C18|runtime|decode_full|no-emptiness-test", "decode's remainder is never tested for emptiness", where)
         return
-    true_edges, false_edges = [], []
     for bi, t in empt:
         nxt = dict(t.targets).get("return")
         sw = f.b.blocks[nxt].term if nxt is not None else None
